@@ -17,6 +17,11 @@ Theorem C01_reader_complete : forall c recs bs,
   forallb wf_rec recs = true -> write_file c recs = OK bs -> check_layout c bs = true.
 Proof. exact write_file_checked. Qed.
 
+(* the decider applied to implementation output is exact: it accepts a byte string if and only if that byte string has
+   the layout (soundness: whatever it accepts is laid out; completeness: it accepts every laid-out byte string) *)
+Theorem C01_checker : forall c bs, check_layout c bs = true <-> Layout c bs.
+Proof. intros c bs. split; [apply check_layout_sound | apply check_layout_complete]. Qed.
+
 (* one visible record per segment, each no longer than the configured maximum *)
 Theorem C01_vr_bound : forall c recs bs,
   forallb wf_rec recs = true -> write_file c recs = OK bs ->
@@ -36,5 +41,6 @@ Proof. eexists. split; [vm_compute; reflexivity | reflexivity]. Qed.
 
 Print Assumptions C01_layout.
 Print Assumptions C01_reader_complete.
+Print Assumptions C01_checker.
 Print Assumptions C01_vr_bound.
 Print Assumptions C01_label.
